@@ -294,7 +294,7 @@ theorem parameterIsValid_translated_partial (vt : List Nat) (p : Param) (b : Boo
   · by_cases h2 : p.typ = 255
     · simp [h1, h2]
     · have : ¬ ((p.typ : Int) = 255) := by omega
-      by_cases h3 : vt.contains p.typ = true <;> simp [h1, h2, h3, this]
+      by_cases h3 : vt.contains p.typ = true <;> cases b <;> simp [h1, h2, h3, this]
 
 /-- classes of errors by the sub-check of Manifest.IsValid that reports them. -/
 def isGroupErr : Err → Bool
